@@ -28,7 +28,7 @@ func main() {
 	}
 	vk.Main(&vk.Check{
 		ID:   "C14",
-		Rule: "bundles: 5 multi-file / multi-package programs (cross-package references both ways, four sibling imports, entity + service + topic over two files, many annotations per field, nested inline types) plus every multi-file program of the reference and mixed families. Explored against the canonical run's bytes: (1) every permutation of the file listing x every permutation of the package listing (n <= 4: all n!; larger: reversal, rotations, adjacent transpositions); (2) every sequence of <= 3 CompilePackage calls (with repetition) on one PackageSet; (3) every ordered pair of bundles compiled one after the other in one process; (4) E3: every iteration order at every owned choice point (Go map ranges, protoreflect Message / Map Range, RangeFiles, RangeExtensions in the 14 compile / print packages) with <= 1 (quick) / <= 2 (thorough) points deviating from the sorted order; (5) reported only: 3 fresh processes. A case = one bundle x one listing / call sequence / first deviating choice point",
+		Rule: "bundles: 5 multi-file / multi-package programs (cross-package references both ways, four sibling imports, entity + service + topic over two files, many annotations per field, nested inline types) plus every multi-file program of the reference and mixed families. Explored against the canonical run's bytes: (1) every permutation of the file listing x every permutation of the package listing (n <= 4: all n!; larger: reversal, rotations, adjacent transpositions); (2) every sequence of <= 3 CompilePackage calls (with repetition) on one PackageSet; (3) every ordered pair of bundles compiled one after the other in one process; (4) E3: every iteration order at every owned choice point (Go map ranges, protoreflect Message / Map Range, RangeFiles, RangeExtensions in the 14 compile / print packages) with <= 1 (quick, 5 rich bundles) / <= 2 (thorough, all bundles) points deviating from the sorted order; (5) reported only: 3 fresh processes. A case = one bundle x one listing / call sequence / first deviating choice point",
 		Assumptions: []string{
 			"owned choice points are the ones tools/vinstr rewrote (listed in the evidence notes with the sites it left alone); iteration inside protocompile / protobuf-go that is not visible at their API is not owned",
 			"generated protobuf messages deliver known fields in a fixed order and only extension fields in map order (protobuf-go impl); dynamicpb messages deliver every field in map order: vorder permutes exactly those",
@@ -387,7 +387,11 @@ func run(r *vk.Runner) {
 	if sites, err := os.ReadFile(vk.VerifRoot + "/.work/c14-sites.json"); err == nil {
 		r.Note("instrumented_sites", string(sites))
 	}
-	for _, bc := range rich {
+	e3set := rich
+	if !r.Quick() {
+		e3set = all // thorough: every multi-file program as well
+	}
+	for _, bc := range e3set {
 		bc := bc
 		exec := func(prefix []int, expect []vorder.Point) ([]vorder.Point, outputs, error, string) {
 			nb := bc.fresh()
